@@ -64,6 +64,9 @@ fn main() {
             let mut fails = Vec::new();
             let ok = sharedref::probe_selftest();
             if !ok { fails.push(J::obj().set("property", J::s("C18")).set("signature", J::s("probe-selftest")).set("message", J::s("the trait probe misreports known auto traits")).set("kind", J::s("autotraits"))); }
+            let (it_rows, it_bad) = sharedref::iter_trait_findings();
+            for _ in 0..it_rows { out.stats.count("c18_iterator_autotrait_rows"); }
+            for (i, m) in it_bad.iter().enumerate() { out.stats.eval("C18", 9000 + i as u64); fails.push(J::obj().set("property", J::s("C18")).set("signature", J::s("iterator-autotrait-unsound")).set("kind", J::s("autotraits")).set("message", J::s(m))); }
             for (i, r) in rows.iter().enumerate() {
                 out.stats.eval("C18", (i as u64) * 2); out.stats.eval("C18", (i as u64) * 2 + 1);
                 if r.send != r.want_send { fails.push(J::obj().set("property", J::s("C18")).set("signature", J::s("send")).set("kind", J::s("autotraits")).set("message", J::s(&format!("LruCache<K: {}, V: {}, S: {}> is {}Send, expected {}Send", r.k, r.v, r.s, if r.send { "" } else { "not " }, if r.want_send { "" } else { "not " })))); }
